@@ -76,49 +76,37 @@ Theorem c03_state_tracks_order_in_effect :
 Proof. exact run_agrees. Qed.
 Print Assumptions c03_state_tracks_order_in_effect.
 
-(* ---- (c) resolver side: model of the Flattener (semantic/resolver/flatten.rs as of fixes 8f24a64, 592b6f8, 8d54bf7),
-   compared with the implementation's RQ (Take.sort, Compute.window.sort, sizes of the partitions, surviving Sort
-   transforms) on every generated program.  Whatever sorts are dropped in front of a group, every take and every windowed
-   compute is handed exactly the order in effect and the partition at its position, at any nesting depth of group/window
-   bodies.
+(* ---- (c) resolver side: model of the Flattener (semantic/resolver/flatten.rs as of fixes 8f24a64, 592b6f8, 8d54bf7,
+   f809321), compared with the implementation's RQ (Take.sort, Compute.window.sort, sizes of the partitions, surviving
+   Sort transforms) on every generated program.  Whatever sorts are dropped in front of a group, every take and every
+   windowed compute is handed exactly the order in effect and the partition at its position, at any nesting depth of
+   group/window bodies.
 
    Full statement (FALSE of the faithful model):
      forall key empty fuel und part s p,
        carried_of key (fst (flat key empty fuel und part s p)) = fst (carried_spec key empty fuel part s p) /\
        snd (flat key empty fuel und part s p) = snd (carried_spec key empty fuel part s p)
-   Refuted twice: F44 (inside a group body the code does not end the sort at an aggregate, so what follows the aggregate in
-   that body is handed a sort whose columns no longer exist) and F45 (a group nested in the body of a group with a non-empty
-   key is partitioned by its own key only, not by the outer keys and its own). *)
+   Refuted by F45 (a group nested in the body of a group with a non-empty key is partitioned by its own key only, not by
+   the outer keys and its own).  The second refutation of the previous round (F44: an aggregate inside a group body did
+   not end the sort) is gone with fix f809321: the hypothesis `tame_agg` was dropped, aggregates are unrestricted. *)
 Theorem c03_flattener_carries_order_in_effect_partial : forall (key : Type) (empty : key) fuel und part s p,
-  Flatten.tame_agg key fuel (Flatten.in_group part) p = true -> Flatten.tame_nest key fuel part p = true ->
+  Flatten.tame_nest key fuel part p = true ->
   Flatten.carried_of key (fst (Flatten.flat key empty fuel und part s p)) = fst (Flatten.carried_spec key empty fuel part s p) /\
-  (FlattenProofs.ends_agg key (Flatten.in_group part) p = false ->
-   snd (Flatten.flat key empty fuel und part s p) = snd (Flatten.carried_spec key empty fuel part s p)).
+  snd (Flatten.flat key empty fuel und part s p) = snd (Flatten.carried_spec key empty fuel part s p).
 Proof. exact flat_carries_order_in_effect_partial. Qed.
 Print Assumptions c03_flattener_carries_order_in_effect_partial.
 
-(* a whole query (not a group body): also the order left in effect at its end *)
-Theorem c03_flattener_carries_order_in_effect_top : forall (key : Type) (empty : key) fuel und s p,
-  Flatten.tame key fuel None p = true ->
-  Flatten.carried_of key (fst (Flatten.flat key empty fuel und None s p)) = fst (Flatten.carried_spec key empty fuel None s p) /\
-  snd (Flatten.flat key empty fuel und None s p) = snd (Flatten.carried_spec key empty fuel None s p).
-Proof. exact flat_carries_order_in_effect_top. Qed.
-Print Assumptions c03_flattener_carries_order_in_effect_top.
+(* every program without a group inside a group is in the class *)
+Theorem c03_no_nested_group_is_tame : forall (key : Type) fuel part p,
+  FlattenProofs.no_nested key fuel (Flatten.in_group part) p = true -> Flatten.tame_nest key fuel part p = true.
+Proof. exact no_nested_tame. Qed.
+Print Assumptions c03_no_nested_group_is_tame.
 
 Theorem c03_flattener_carries_order_in_effect_refuted :
-  (exists p : list (pitem (list bool)),            (* F44 *)
-     Flatten.tame_nest (list bool) 20 None p = true /\
+  exists p : list (pitem (list bool)),            (* F45 *)
      Flatten.carried_of (list bool) (fst (Flatten.flat (list bool) [] 20 false None [] p))
-     <> fst (Flatten.carried_spec (list bool) [] 20 None [] p)) /\
-  (exists p : list (pitem (list bool)),            (* F45 *)
-     Flatten.tame_agg (list bool) 20 false p = true /\
-     Flatten.carried_of (list bool) (fst (Flatten.flat (list bool) [] 20 false None [] p))
-     <> fst (Flatten.carried_spec (list bool) [] 20 None [] p)).
-Proof.
-  split.
-  - exists [PGroup 1 [PSort [false]; PAgg; PTake]]. split; [vm_compute; reflexivity | vm_compute; discriminate].
-  - exists [PGroup 1 [PGroup 1 [PSort [false]; PTake]; POther]]. split; [vm_compute; reflexivity | vm_compute; discriminate].
-Qed.
+     <> fst (Flatten.carried_spec (list bool) [] 20 None [] p).
+Proof. exists [PGroup 1 [PGroup 1 [PSort [false]; PTake]; POther]]. vm_compute. discriminate. Qed.
 Print Assumptions c03_flattener_carries_order_in_effect_refuted.
 
 Theorem c03_plain_pipeline_keeps_sorts : forall (key : Type) (empty : key) p fuel part s,
@@ -133,11 +121,8 @@ Example c03_ex_f37 :
   fst (Flatten.flat (list bool) [] 20 false None [] [PSort [false]; PTake; PSort [true]; PTake; PGroup 1 [PTake]])
   = [OTake 0 [false]; OTake 0 [true]; OTake 1 []].
 Proof. vm_compute. reflexivity. Qed.
-(* F44 and F45 at model level; the tame class is inhabited by programs with aggregates inside and outside of groups and
-   with a group nested in an empty-key group *)
-Example c03_ex_f44 :
-  fst (Flatten.flat (list bool) [] 20 false None [] [PGroup 1 [PSort [false]; PAgg; PTake]]) = [OTake 1 [false]].
-Proof. vm_compute. reflexivity. Qed.
+(* F45 at model level; the class is inhabited by programs with aggregates inside and outside of groups (followed by
+   more of the body: f809321) and with a group nested in an empty-key group *)
 Example c03_ex_f45 :
   Flatten.carried_of (list bool) (fst (Flatten.flat (list bool) [] 20 false None [] [PGroup 1 [PGroup 2 [PSort [false]; PTake]; PTake]]))
   = [(2, [false]); (1, [])] /\
@@ -146,7 +131,11 @@ Example c03_ex_f45 :
 Proof. vm_compute. split; reflexivity. Qed.
 Example c03_ex_tame :
   Flatten.tame (list bool) 20 None
-    [PSort [true]; PGroup 1 [PSort [false]; PTake; PAgg]; PSort [false]; PAgg; PWin; PGroup 0 [PGroup 2 [PSort [true]; PTake]; PTake]] = true.
+    [PSort [true]; PGroup 1 [PSort [false]; PAgg; PTake]; PSort [false]; PAgg; PWin; PGroup 0 [PGroup 2 [PSort [true]; PTake]; PTake]] = true.
+Proof. vm_compute. reflexivity. Qed.
+(* fix f809321 (was finding F44): inside a group body too, what follows an aggregate is handed no sort *)
+Example c03_ex_grouped_aggregate_ends_sort :
+  fst (Flatten.flat (list bool) [] 20 false None [] [PGroup 1 [PSort [false]; PAgg; PTake]]) = [OTake 1 []].
 Proof. vm_compute. reflexivity. Qed.
 (* fix 8d54bf7: outside of groups an aggregate ends the sort (the take after it is handed none) *)
 Example c03_ex_aggregate_ends_sort :
